@@ -100,6 +100,7 @@ PROPS = {
             B("w_timer.cpp", "timer_thread", quick=10, thorough=150, oracles=["c07."] + RT_ALL),
             B("w_timer.cpp", "timer_unsafe", quick=5, thorough=60, oracles=["c07."] + RT_ALL),
             B("w_timer.cpp", "timer_thread", cfg="S17r", quick=5, thorough=60, oracles=["c07."] + RT_ALL),
+            B("w_io.cpp", "io_epoll", rt=("fdlayer",), quick=6, thorough=90, oracles=["c07."] + RT_LIVE),
         ],
         level_text=("Seeded exploration over the real timed_single_thread_context and thread_unsafe_event_loop on a simulated clock: 1-10 timers "
                     "(schedule_at / schedule_after) with due times drawn from {past, now, equal pairs, near, 1 s, 1 h}, submitted from 1-3 threads "
@@ -110,7 +111,7 @@ PROPS = {
                     "completion, op state freed inside the completion (any later reference by the context is a shadow hit), empty queue at destruction."),
         level_note=("Trusted: usim clock/condvar stubs. Not decided here: the clause 'time_point arithmetic is exact and totally ordered for all "
                     "representable operands' is a pure function of its operands (no schedule, clock or fault): only incidentally exercised. "
-                    "I/O-context timers are checked once the fd layer exists (see C14)."),
+                    "io_epoll_context timers (schedule_at on a virtual timerfd) are checked on the C14 workload; io_uring timers are not (no kernel model)."),
         real=["timed_single_thread_context (+cancel_callback)", "thread_unsafe_event_loop (+sync_wait driver)", "inplace_stop_source",
               "libstdc++ std::condition_variable::wait_until / this_thread::sleep_until wrappers"],
         stub=["clock_gettime/nanosleep/pthread_cond_clockwait on the simulated clock", "pthread mutex/cond/create/join (usim)", "heap (usim arena)"],
